@@ -76,8 +76,8 @@ def check_tees(chk, tmp):
         for name, tee, to, enc in tee_pairs():
             if not encodable(table, enc):
                 continue
-            if ('text' in name or 'html' in name) and not rectangular(table):
-                continue       # templates / html rows address every field
+            if 'html' in name and not rectangular(table):
+                continue       # html rows are rendered cell by cell: exercised on rectangular tables
             for kind in ('path', 'memory', 'gz'):
                 t1, t2 = iolib.Target(kind, tmp, 'tee'), iolib.Target(kind, tmp, 'to')
                 sig = {'op': 'tee' + name.split(' ')[0], 'kind': 'tee', 'source': kind}
